@@ -29,6 +29,10 @@ def slice_def(u, name, tier):
         calls = [u.call("export_all", t, "default") for t in ["Al1", "Al<Leaf>", "AlphaBeta", "Beta", "alpha2"]]
         f0, f = exportlib.free_alphabet(calls)
         return dict(calls=calls, follow0=f0, follow=f, maxlen=3 if q else 5, init="empty", strict=True, confl="C05")
+    if name == "samefile_abs":        # C05 with an absolute export directory and two spellings of the file in the attributes
+        calls = [u.call("export", t, "abs") for t in ["Alpha", "AlD", "Al1", "Beta", "Al2"]] + [u.call("export_all_to", t, "abs") for t in ["AlD", "Al1"]]
+        f0, f = exportlib.free_alphabet(calls)
+        return dict(calls=calls, follow0=f0, follow=f, maxlen=3 if q else 4, init="empty", strict=True, confl="C05")
     if name == "imports":             # C05: overlapping and disjoint import sets, several names from one other shared file
         tys = ["AlA", "AlB", "AlC", "Al1", "Alpha"] + ([] if q else ["AlphaBeta", "Al<Leaf>"])
         calls = [u.call("export", t, "default") for t in tys] + [u.call("export_all", t, "default") for t in ["AlA", "AlB", "AlC"]]
@@ -52,7 +56,7 @@ def slice_def(u, name, tier):
         return dict(calls=calls, follow0=f0, follow=f, maxlen=3, init="empty", strict=True, confl="C06")
     if name == "spell":               # C06: all spellings of the directory, two calls
         calls = []
-        for t in ["Alpha", "Al1", "Mid"]:
+        for t in ["Alpha", "Al1", "Mid", "AlD"]:
             for e in ("export", "export_all", "export_all_to"):
                 for s in ("default", "plain", "dotslash/", "abs", "dotdot", "other", "cd2", "cd2_plain"):
                     calls.append(u.call(e, t, s))
@@ -360,11 +364,12 @@ def run_property(prop, slices, tier, level="model_checking", extra_assumptions=(
         v.note("instantiations of one generic type render different text: %s" % stats["ident_clash"])
     rc = v.finish()
     cov = {"states": stats.get("states", 0), "transitions": stats.get("transitions", 0),
-           "traces_validated_against_impl": stats.get("adjudicated", 0) + stats.get("thread_runs", 0),
+           "traces_validated_against_impl": stats.get("adjudicated", 0) + stats.get("thread_runs", 0) + (1 if stats.get("repo_tests_events_validated") else 0),
            "samples": samples, "histories_replayed": total,
            "distinct_exported_sets_compared": stats.get("distinct_done_sets", 0),
            "slices": stats.get("slices", {}),
            "threads": {k: stats[k] for k in stats if k.startswith("thread_") or k == "action_coverage"},
+           "repository_tests": {k: stats[k] for k in stats if k.startswith("repo_tests_")},
            "exhaustive": True,
            "rule": "per slice: every sequence of steps over the slice's alphabet up to its length bound is one TLC behaviour (MC_ExportHist.tla); each is replayed through the real entry points in a fresh directory with a reset registry; TLC (Trace_Export.tla) steps the abstract specification along the observed history and evaluates the property on the real trees; Trace_Confluence.tla compares final bytes of histories that reached the same exported set"}
     vlib.write_evidence(prop, tier, level, cov,
